@@ -15,6 +15,7 @@ import (
 
 func init() {
 	register(&PropertyCheck{ID: "C17", Level: "other", Run: checkC17, Canaries: []Canary{
+		{Name: "subscribe-limited-to-32-filters", Rule: "R17.1", Where: "Subscribe", Edits: []Edit{{"subscribe.go", "type Subscribe struct {\n\tfixed          bits\n\tpacketID       wuint16\n\tsubscriptionID *vbint\n\tUserProperties\n\tfilters []TopicFilter\n}\n\nfunc (p *Subscribe) String() string {\n\treturn withForm(p, fmt.Sprintf(\"%s p%v %s %v bytes\",\n\t\tfirstByte(p.fixed).String(),\n\t\tp.packetID,\n\t\tp.filterString(),\n\t\tp.width(),\n\t))\n}\n\nfunc (p *Subscribe) WellFormed() *Malformed {\n\tif len(p.filters) == 0 {\n\t\treturn newMalformed(p, \"filters\", \"no\")", "// maxFilters is the number of topic filters accepted in one\n// subscribe packet.\nconst maxFilters = 32\n\ntype Subscribe struct {\n\tfixed          bits\n\tpacketID       wuint16\n\tsubscriptionID *vbint\n\tUserProperties\n\tfilters []TopicFilter\n}\n\nfunc (p *Subscribe) String() string {\n\treturn withForm(p, fmt.Sprintf(\"%s p%v %s %v bytes\",\n\t\tfirstByte(p.fixed).String(),\n\t\tp.packetID,\n\t\tp.filterString(),\n\t\tp.width(),\n\t))\n}\n\nfunc (p *Subscribe) WellFormed() *Malformed {\n\tif len(p.filters) == 0 {\n\t\treturn newMalformed(p, \"filters\", \"no\")\n\t}\n\tif len(p.filters) > maxFilters {\n\t\treturn newMalformed(p, \"filters\", \"too many\")"}}},
 		{Name: "subscribe-wellformed-rule-on-an-unlisted-field", Rule: "R17.1", Where: "(*Subscribe).WellFormed", Edits: []Edit{{"subscribe.go", "\tfor _, f := range p.filters {\n\t\tif err := f.WellFormed(); err != nil {", "\tfor _, up := range p.UserProperties {\n\t\tif len(up[0]) == 0 {\n\t\t\treturn newMalformed(p, \"user property\", \"empty key\")\n\t\t}\n\t}\n\tfor _, f := range p.filters {\n\t\tif err := f.WellFormed(); err != nil {"}}},
 		{Name: "alias-conjunct-missing", Rule: "R17.1", Where: "(*Publish).WellFormed", Edits: []Edit{{"publish.go", "\tif len(p.topicName) == 0 && p.topicAlias == 0 {", "\tif len(p.topicName) == 0 {"}}},
 		{Name: "qos2-arm-removed", Rule: "R17.1", Where: "(*Publish).WellFormed", Edits: []Edit{{"publish.go", "\tcase 1, 2:\n\t\tif p.packetID == 0 {\n\t\t\treturn newMalformed(p, \"packet ID\", \"empty\")", "\tcase 1:\n\t\tif p.packetID == 0 {\n\t\t\treturn newMalformed(p, \"packet ID\", \"empty\")"}}},
@@ -451,7 +452,19 @@ func checkSubscribeWF(p *Prog, c *Check) {
 	n := 0
 	bad := ""
 	extraSub := map[string]bool{}
-	for _, nf := range []int64{0, 1, 2, 3} {
+	// numbers of filters: 0–3 with every combination of the atoms, and — with all filters valid — the neighbourhood of
+	// every constant the predicate (or what it calls) compares anything with (a rule such as "at most 32 filters"
+	// shows at 33)
+	nfs := []int64{0, 1, 2, 3}
+	for _, k := range p.cmpConstsFor(fn) {
+		if k > 3 && k <= 300 {
+			nfs = append(nfs, k)
+		}
+	}
+	if !thoroughMode && len(nfs) > 16 {
+		nfs = nfs[:16]
+	}
+	for _, nf := range nfs {
 		// the identifier cell is unsigned: bit patterns above the int range are legal contents (SetSubscriptionID(-1))
 		subs := []int64{-1, 0, 1, limit, limit + 1, 1 << 31, 1<<32 - 1}
 		if p.U.Sizes.Sizeof(types.Typ[types.Uint]) == 8 {
@@ -472,6 +485,9 @@ func checkSubscribeWF(p *Prog, c *Check) {
 					dom[ko] = allBytes()
 				} else {
 					dom[ko] = ints(0, 1, 2, 3, 0xFC, 0xFF)
+				}
+				if nf > 3 {
+					dom[kf], dom[ko] = lens(1), ints(1)
 				}
 			}
 			product(keys, dom, func(a symAssign) bool {
